@@ -1037,7 +1037,7 @@ func (c *RPCClient) SendRequest(ctx context.Context, addr string, req *tikvrpc.R
 	case tikvrpc.CmdRawChecksum:
 		r := req.RawChecksum()
 		if err := session.checkRequest(reqCtx, r.Size()); err != nil {
-			resp.Resp = &kvrpcpb.RawScanResponse{RegionError: err}
+			resp.Resp = &kvrpcpb.RawChecksumResponse{RegionError: err}
 			return resp, nil
 		}
 		resp.Resp = kvHandler{session}.handleKvRawChecksum(r)
